@@ -1,11 +1,12 @@
 package an
 
 import (
-	"sort"
-	"go/constant"
 	"fmt"
+	"go/constant"
 	"go/token"
 	"go/types"
+	"regexp"
+	"sort"
 	"strings"
 
 	"golang.org/x/tools/go/ssa"
@@ -489,13 +490,23 @@ func flipCond(c string) string {
 // sums, differences, products with a constant and left shifts by a constant are expanded, conversions are
 // looked through (widths are not modelled).  The constant term has the key "".  Independent of how the
 // source associates, orders or factors the expression: 4*(80+x), (x+80)*4 and 320+4*x give the same form.
-func LinForm(v ssa.Value) map[string]int64 {
+func LinForm(v ssa.Value) map[string]int64 { return LinFormWith(v, nil) }
+
+// LinFormWith is LinForm with merges resolved: where sel gives a replacement for a value (the incoming value
+// of a phi on the path under consideration), the form continues through the replacement.
+func LinFormWith(v ssa.Value, sel func(ssa.Value) ssa.Value) map[string]int64 {
 	out := map[string]int64{}
 	var add func(v ssa.Value, k int64, d int)
 	add = func(v ssa.Value, k int64, d int) {
 		if d > 30 {
 			out[Expr(v)] += k
 			return
+		}
+		if sel != nil {
+			if w := sel(v); w != nil && w != v {
+				add(w, k, d+1)
+				return
+			}
 		}
 		switch x := v.(type) {
 		case *ssa.Const:
@@ -575,3 +586,41 @@ func LinString(l map[string]int64) string {
 	}
 	return strings.Join(parts, " + ")
 }
+
+var reAnonPhi = regexp.MustCompile(`phi:[^@\s\)\]\[,]*@b\d+`)
+var reAnonAlloc = regexp.MustCompile(`(new|local):[^@\s\)\]\[,]*@t\d+`)
+var reAnonFree = regexp.MustCompile(`free:[A-Za-z_0-9]+`)
+
+// Anon removes from a rendering what depends on the names chosen for local variables and on block or
+// register numbers: "phi:i@b23" -> "phi", "local:buf@t4" -> "local", "free:db" -> "free".
+func Anon(e string) string {
+	e = reAnonPhi.ReplaceAllString(e, "phi")
+	e = reAnonAlloc.ReplaceAllString(e, "$1")
+	return reAnonFree.ReplaceAllString(e, "free")
+}
+
+// CanonInstr renders the construct an index / slice / allocation obligation is about in canonical,
+// name-independent form: base[index], base[lo:hi], make(len).
+func CanonInstr(ins ssa.Instruction) string {
+	switch x := ins.(type) {
+	case *ssa.IndexAddr:
+		return Anon(strings.TrimPrefix(Expr(x.X), "&") + "[" + Expr(x.Index) + "]")
+	case *ssa.Index:
+		return Anon(Expr(x.X) + "[" + Expr(x.Index) + "]")
+	case *ssa.Lookup:
+		return Anon(Expr(x.X) + "[" + Expr(x.Index) + "]")
+	case *ssa.Slice:
+		return Anon(Expr(x))
+	case *ssa.MakeSlice:
+		return Anon("make(" + Expr(x.Len) + ")")
+	case *ssa.If:
+		return Anon(Expr(x.Cond))
+	}
+	if v, ok := ins.(ssa.Value); ok {
+		return Anon(Expr(v))
+	}
+	return ""
+}
+
+// FieldNameOf: the name of the field a FieldAddr selects.
+func FieldNameOf(fa *ssa.FieldAddr) string { return fieldName(fa.X.Type(), fa.Field) }
